@@ -108,8 +108,13 @@ class SymCtx:
     def note(self, s):
         self.eng.note(s)
 
+    def abstract(self, value, name):
+        """cut point (decomposition-boundary cut): returns a fresh symbol standing for `value`; obligations
+        created with abstract=True are decided with every occurrence of the cut terms replaced by these symbols"""
+        return self.eng.abstract(value, name)
+
     # obligations
-    def eq(self, label, a, b, expect="unsat", core=True):
+    def eq(self, label, a, b, expect="unsat", core=True, abstract=False, premises=()):
         fa, fb = flat(a), flat(b)
         if fa is None or fb is None:
             ok = fa is None and fb is None
@@ -135,7 +140,7 @@ class SymCtx:
                 same = (not symx.is_sym(x)) and (not symx.is_sym(y)) and (x == y or (x != x and y != y))
                 self.eng.obligations.append(symx.Obligation(lab, "concrete", bool(same), info="non-finite: %r vs %r" % (x, y), expect=expect, core=core))
                 continue
-            self.eng.obligations.append(symx.Obligation(lab, "eq", lx == ly, lx, ly, expect=expect, core=core))
+            self.eng.obligations.append(symx.Obligation(lab, "eq", lx == ly, lx, ly, expect=expect, core=core, abstract=abstract, premises=[symx.bv(c) for c in premises]))
 
     def holds(self, label, cond, expect="unsat", core=True):
         if isinstance(cond, SymBool):
@@ -174,6 +179,13 @@ class SymCtx:
     @staticmethod
     def log(x):
         return symx.log(x)
+
+    @staticmethod
+    def log_pos(x):
+        """log of a quantity whose positivity is supplied as a premise of the obligation (no fork)"""
+        if not symx.is_sym(x):
+            return symx.log(x)
+        return SymReal(symx.UF_LOG(symx.rv(x)))
 
     @staticmethod
     def lgamma(x):
@@ -238,7 +250,10 @@ class ConcCtx:
     def note(self, s):
         self.notes.append(s)
 
-    def eq(self, label, a, b, expect="unsat", core=True):
+    def abstract(self, value, name):
+        return value
+
+    def eq(self, label, a, b, expect="unsat", core=True, abstract=False, premises=()):
         fa, fb = flat(a), flat(b)
         if fa is None or fb is None:
             self.records.append(dict(label=label, ok=(fa is None and fb is None), lhs=None, rhs=None, info="None-ness"))
@@ -286,6 +301,10 @@ class ConcCtx:
 
     @staticmethod
     def log(x):
+        return math.log(x) if x > 0 else (-math.inf if x == 0 else math.nan)
+
+    @staticmethod
+    def log_pos(x):
         return math.log(x) if x > 0 else (-math.inf if x == 0 else math.nan)
 
     @staticmethod
@@ -645,28 +664,42 @@ class Discharger:
             res.update(status="discharged", solver="z3-simplify", time_s=time.time() - t0)
             return res
         base = pr.pc + pr.divs + getattr(pr, "ob_divs", [])
-        r, m = self.solver.check(base + [z3.Not(goal)], self.ob_timeout_ms, want_model=True)
         res["solver"] = "portfolio"
+        lhs, rhs = ob.lhs, ob.rhs
+        if ob.abstract and getattr(pr, "subs", None):
+            # decomposition-boundary cut: the cut terms become free symbols everywhere (path condition included)
+            subs = pr.subs
+            base = [z3.substitute(c, *subs) for c in base] + list(ob.premises)
+            goal = z3.substitute(goal, *subs)
+            if lhs is not None:
+                lhs, rhs = z3.substitute(lhs, *subs), z3.substitute(rhs, *subs)
+            base += [d != 0 for d in symx.collect_divisors(base + [goal])]
+            res["cut"] = len(subs)
+        uf = symx.has_uf([goal])
+        g2 = logelim_eq(lhs, rhs) if ob.kind == "eq" else None
+        if g2 is not None:
+            # log terms: decide the multiplied-out form (sufficient condition; exact for a_k > 0, which holds on the path)
+            extra = [d != 0 for d in symx.collect_divisors([g2])]
+            r, m = self.solver.check(base + extra + [z3.Not(g2)], self.ob_timeout_ms, want_model=True)
+            res["solver"] = "portfolio+logelim"
+            if r == "unknown":
+                # the plain uninterpreted reading may still prove it (identical log structure on both sides)
+                r1, m1 = self.solver.check(base + [z3.Not(goal)], min(self.ob_timeout_ms, 5000), want_model=False, external_s=0)
+                if r1 == "unsat":
+                    r = "unsat"
+        else:
+            r, m = self.solver.check(base + [z3.Not(goal)], self.ob_timeout_ms, want_model=True)
         if r == "unsat":
             res.update(status="discharged", time_s=time.time() - t0)
             return res
-        # log elimination (sufficient condition) when uninterpreted log is involved
-        if ob.kind == "eq":
-            g2 = logelim_eq(ob.lhs, ob.rhs)
-            if g2 is not None:
-                extra = [d != 0 for d in symx.collect_divisors([g2])]
-                r2, m2 = self.solver.check(base + extra + [z3.Not(g2)], self.ob_timeout_ms, want_model=True)
-                if r2 == "unsat":
-                    res.update(status="discharged", solver="portfolio+logelim", time_s=time.time() - t0)
-                    return res
-                if r == "unknown" and r2 == "sat":
-                    r, m = r2, m2
         if r == "sat":
             # try for a well-separated counterexample (easier to reproduce in floating point)
-            m_nice = self._nice(pr, ob, base)
+            m_nice = self._nice(pr, ob, base) if not (uf or ob.abstract) else None
             res.update(status="refuted", time_s=time.time() - t0)
             res["model"] = model_inputs(m_nice or m, pr.inputs)
             res["model_all"] = _all_vars(m_nice or m)
+            # with uninterpreted functions in the goal the model's interpretation need not be the real function
+            res["uf_model"] = bool(uf) or bool(ob.abstract)
             return res
         res.update(status="inconclusive", reason="solver unknown/timeout", time_s=time.time() - t0)
         return res
